@@ -24,6 +24,7 @@ EXPLANATION = (
     "finding K1); a degenerate domain maps every value to the start of the range (C11.DEGENERATE); uni2tex is total "
     "(C19 rules).  Exceptions of other classes (e.g. KeyError from a user timeFn) are not decided."
     "  Crash lints (rules/crash.py), each firing only on a construct that raises for every input reaching it: GEN.TYPED-ATTRS, GEN.SUPERINIT, GEN.STRARITH, GEN.BUILTIN-ARGS, GEN.DICTKEY, GEN.ATTR-ORDER (attribute typestate of export), GEN.LOCALNONE (with the witness idiom of mostViolated), GEN.SEQINDEX (constant subscripts outside a shape known on that path of the emitter runs), C11.HEXTOTAL / C11.INT2NAME (crash-only readings of the colour and naming helpers), C11.GEOMSET, C11.DATUMKEYS; C11.OPTKEYS also covers removeOverlap's reads of its caller's dict; discharge-table entries that name a guard re-verify it."
+    "  assert statements are evaluated on the value-numbered body: shown true -> discharged, refuted on some path -> C11.RAISE, neither -> accepted as the author's invariant (noted); `raise NotImplementedError` as the whole body of a method every leaf subclass overrides is an abstract marker; C07.INIT-ORDER is part of this check (the axis is built from the normalised data)."
 )
 ASSUMPTIONS = ["documented input contracts: density > 0, tick count >= 1, non-empty colour lists, positive weights/scales", "default recursion limit 1000, conflict clusters <= 200 labels"]
 
